@@ -797,8 +797,14 @@ def rand_valid(rnd, dt, full=True):
     raise MachineryError(dt)
 
 
-WRONG = [num(1), {'k': 'frac', 'n': 2}, sval('ab'), NULL, {'k': 'list', 'xs': [num(1)]}, {'k': 'list', 'xs': []},
-         {'k': 'obj', 'kv': [{'key': 'x', 'val': num(1)}]}, sval('toolong!'), sval('nonascii')]
+WRONG = [num(1), {'k': 'frac', 'n': 2}, sval('ab'), NULL, {'k': 'list', 'xs': [num(7)]}, {'k': 'list', 'xs': []},
+         {'k': 'obj', 'kv': [{'key': 'x', 'val': num(7)}]}, sval('toolong!'), sval('nonascii')]
+
+
+def has_kind(dt, kinds):
+    return dt['t'] in kinds or any(has_kind(x, kinds) for x in
+                                   [dt[k] for k in ('el',) if k in dt] + list(dt.get('els', ())) +
+                                   [m['dt'] for m in dt.get('mem', ()) if 'dt' in m])
 
 
 def rand_payload(rnd, dt):
@@ -878,7 +884,7 @@ def rand_shape(rnd):
             wire = auto if r < 0.7 else ('' if r < 0.85 else 'x_' + attr)
             q = rnd.random()
             # (constants of scaled / blob parameters: shapes K of the family, a known defect of Parameter.finish)
-            ro, const = q < 0.15, (rand_valid(rnd, dt) if 0.15 <= q < 0.25 and dt['t'] not in ('scaled', 'blob') else NULL)
+            ro, const = q < 0.15, (rand_valid(rnd, dt) if 0.15 <= q < 0.25 and not has_kind(dt, ('scaled', 'blob')) else NULL)
             if const != NULL:
                 ro = True
             lim = {'kind': 'none'}
